@@ -1,7 +1,6 @@
 from vlib.gen import Unit, Fn, Adt, Raw
 from units.common import TOKENKIND, TOKEN, IS_TRIVIA, PAR
 from units.u_input import INPUT_ITEMS, LEMMA_NTH0
-import copy
 
 P = PAR + "parser.rs"
 PI = "<'t> Parser<'t>"
@@ -19,11 +18,11 @@ PARSER_TYPES = [
     Adt(file=P, kw="struct", name="MarkerClosed", rules=["attrs"], attrs="#[derive(Clone, Copy)]"),
 ]
 
-# input methods: contracts only (bodies verified in U-INPUT); here they are re-verified too (cheap) so the
-# unit is self-contained and the callee contracts are the checked ones, not assumed copies.
+# Input's methods are re-verified here (cheap) so that the callee contracts this unit relies on are checked ones.
 INPUT = INPUT_ITEMS[:2] + [LEMMA_NTH0] + INPUT_ITEMS[2:]
 
 FRAME = "final(self).same_input(old(self))"
+OLDC = "old(self).input.tokens@, old(self).input.cursor as int"
 STALL = """({
             &&& r == TokenKind::Eof
             &&& final(self).fuel == 0 && final(self).stuck_reported
@@ -32,12 +31,21 @@ STALL = """({
             &&& !old(self).stuck_reported ==> final(self).diagnostics.view() == old(self).diagnostics.view().push(
                     if old(self).input.cursor < old(self).input.tokens.len() { Some(old(self).input.tokens@[old(self).input.cursor as int].range) } else { None })
         })"""
+# what every look-ahead does to the termination measure
+MU_PEEK = """mu(*final(self)) <= mu(*old(self)), at_eof(*final(self)) == at_eof(*old(self)),
+            (old(self).fuel > 0 && !at_eof(*old(self))) ==> mu(*final(self)) < mu(*old(self)),"""
+MU_SAME = "mu(*final(self)) == mu(*old(self)), at_eof(*final(self)) == at_eof(*old(self)),"
+MU_SAME_P = "mu(*final(p)) == mu(*old(p)), at_eof(*final(p)) == at_eof(*old(p)),"
+G_ENTRY = ("@entry", "", "let ghost p0 = *self;")
+G_SKIP = "lemma_skip_trivia_bounds(self.input.tokens@, self.input.cursor as int);"
+
 
 def peek_like(name, nth):
-    res = "nth_kind(old(self).input.tokens@, old(self).input.cursor as int, n as int)" if nth else "nth_kind(old(self).input.tokens@, old(self).input.cursor as int, 0)"
-    cur = "final(self).input == old(self).input" if nth else "final(self).input.cursor == skip_trivia(old(self).input.tokens@, old(self).input.cursor as int)"
+    res = f"nth_kind({OLDC}, n as int)" if nth else f"nth_kind({OLDC}, 0)"
+    cur = "final(self).input == old(self).input" if nth else f"final(self).input.cursor == skip_trivia({OLDC})"
     return Fn(file=P, name=name, container="Parser", as_method_of=PI, ret="r",
-              obligation="fuel: a stalled parser (fuel 0) sees Eof and reports 'did not consume' at most once per stall; otherwise fuel decreases by one and the answer is the input's",
+              obligation="fuel: a stalled parser (fuel 0) sees Eof and reports 'did not consume' at most once per stall; otherwise fuel "
+                         "decreases by one and the answer is the input's; the termination measure never increases",
               contract=f"""requires old(self).wf(),
         ensures final(self).wf(), {FRAME}, final(self).events == old(self).events,
             old(self).fuel == 0 ==> {STALL},
@@ -47,97 +55,118 @@ def peek_like(name, nth):
                 &&& {cur}
                 &&& final(self).diagnostics == old(self).diagnostics
                 &&& final(self).stuck_reported == old(self).stuck_reported
-            }}),""",
-              ghost=[("self.diagnostics.push(", "line-before",
+            }}),
+            {MU_PEEK}
+            at_eof(*old(self)) ==> r == TokenKind::Eof,""",
+              ghost=[G_ENTRY,
+                     ("@entry", "", f"proof {{ {G_SKIP} if at_eof(*self) {{ lemma_nth_eof(self.input.tokens@, self.input.cursor as int, {'n as int' if nth else '0'}); }} }}"),
+                     ("self.diagnostics.push(", "line-before",
                       "proof { if self.input.cursor < self.input.tokens.len() { assert(self.input.tokens@[self.input.cursor as int].range == range->0); } }"),
-                     ("@entry", "", "proof { lemma_skip_trivia_bounds(self.input.tokens@, self.input.cursor as int); }")])
+                     ("@entry", "", "proof { assert forall|q: Parser| q.input.tokens == p0.input.tokens && (q.input.cursor == skip_trivia(p0.input.tokens@, p0.input.cursor as int) || q.input.cursor == p0.input.cursor) implies #[trigger] at_eof(q) == at_eof(p0) && nt_left(q) == nt_left(p0) by { lemma_mu_skip(p0, q); } }")])
+
 
 EV_PUSH = "final(self).events@ == old(self).events@.push({e})"
-KEEP = "final(self).input == old(self).input && final(self).fuel == old(self).fuel && final(self).stuck_reported == old(self).stuck_reported && final(self).diagnostics == old(self).diagnostics"
+KEEP = ("final(self).input == old(self).input && final(self).fuel == old(self).fuel && final(self).stuck_reported == old(self).stuck_reported "
+        "&& final(self).diagnostics == old(self).diagnostics")
+KEEP_P = KEEP.replace("self", "p")
+WF_PUSH = ("proof { lemma_count_adv_push(old(self).events@, self.events@.last()); assert forall|i: int| 0 <= i < self.events@.len() implies "
+           "#[trigger] fp_ok(self.events@, i) by { if i < old(self).events@.len() { assert(fp_ok(old(self).events@, i)); } } }")
 
 PCORE_FNS = [
     Fn(file=P, name="new", container="MarkerOpened", ret="r", contract="ensures r.index == pos,"),
     peek_like("peek", False),
     peek_like("nth", True),
     Fn(file=P, name="eof", container="Parser", as_method_of=PI, ret="r",
+       obligation="eof() is the input's real end (independent of fuel) and costs no fuel",
        contract=f"""requires old(self).wf(),
         ensures final(self).wf(), {FRAME}, final(self).events == old(self).events, final(self).fuel == old(self).fuel,
-            final(self).input.cursor == skip_trivia(old(self).input.tokens@, old(self).input.cursor as int),
-            r == (final(self).input.cursor == final(self).input.tokens.len()),
-            final(self).diagnostics == old(self).diagnostics, final(self).stuck_reported == old(self).stuck_reported,""",
-       ghost=[("@entry", "", "proof { lemma_skip_trivia_bounds(self.input.tokens@, self.input.cursor as int); }")]),
+            final(self).input.cursor == skip_trivia({OLDC}),
+            r == (final(self).input.cursor == final(self).input.tokens.len()), r == at_eof(*old(self)),
+            final(self).diagnostics == old(self).diagnostics, final(self).stuck_reported == old(self).stuck_reported,
+            {MU_SAME}""",
+       ghost=[G_ENTRY, ("@entry", "", f"proof {{ {G_SKIP} }}"),
+              ("@entry", "", "proof { assert forall|q: Parser| q.input.tokens == p0.input.tokens && q.fuel == p0.fuel && (q.input.cursor == skip_trivia(p0.input.tokens@, p0.input.cursor as int) || q.input.cursor == p0.input.cursor) implies #[trigger] at_eof(q) == at_eof(p0) && nt_left(q) == nt_left(p0) by { lemma_mu_skip(p0, q); } }")]),
     Fn(file=P, name="at", container="Parser", as_method_of=PI, ret="r",
        contract=f"""requires old(self).wf(),
         ensures final(self).wf(), {FRAME}, final(self).events == old(self).events,
             old(self).fuel == 0 ==> r == (kind == TokenKind::Eof),
-            old(self).fuel > 0 ==> r == (kind == nth_kind(old(self).input.tokens@, old(self).input.cursor as int, 0)) && final(self).fuel == old(self).fuel - 1,
-            final(self).input.cursor == old(self).input.cursor || final(self).input.cursor == skip_trivia(old(self).input.tokens@, old(self).input.cursor as int),"""),
+            old(self).fuel > 0 ==> r == (kind == nth_kind({OLDC}, 0)) && final(self).fuel == old(self).fuel - 1,
+            final(self).input.cursor == old(self).input.cursor || final(self).input.cursor == skip_trivia({OLDC}),
+            {MU_PEEK}
+            at_eof(*old(self)) ==> r == (kind == TokenKind::Eof),"""),
     Fn(file=P, name="at_any", container="Parser", as_method_of=PI, ret="r",
        contract=f"""requires old(self).wf(),
         ensures final(self).wf(), {FRAME}, final(self).events == old(self).events,
             old(self).fuel == 0 ==> r == kinds@.contains(TokenKind::Eof),
-            old(self).fuel > 0 ==> r == kinds@.contains(nth_kind(old(self).input.tokens@, old(self).input.cursor as int, 0)),"""),
+            old(self).fuel > 0 ==> r == kinds@.contains(nth_kind({OLDC}, 0)),
+            {MU_PEEK}
+            at_eof(*old(self)) ==> r == kinds@.contains(TokenKind::Eof),"""),
     Fn(file=P, name="open", container="Parser", as_method_of=PI, ret="r",
        obligation="open pushes a tombstone Open and returns a marker for it",
        contract=f"""requires old(self).wf(),
         ensures final(self).wf(), {FRAME}, {KEEP},
             {EV_PUSH.format(e="Event::Open { kind: MySyntaxKind::TombStone, forward_parent: None }")},
             r.index == old(self).events.len(), marker_ok(final(self).events@, r.index),
-            events_extend(old(self).events@, final(self).events@),""",
-       ghost=[("MarkerOpened::new(", "line-before", "proof { lemma_count_adv_push(old(self).events@, Event::Open { kind: MySyntaxKind::TombStone, forward_parent: None }); assert forall|i: int| 0 <= i < self.events@.len() implies #[trigger] fp_ok(self.events@, i) by { if i < old(self).events@.len() { assert(fp_ok(old(self).events@, i)); } } }")]),
+            events_extend(old(self).events@, final(self).events@), {MU_SAME}""",
+       ghost=[("MarkerOpened::new(", "line-before", WF_PUSH)]),
     Fn(file=P, name="close", container="Parser", as_method_of=PI, ret="r",
        obligation="close rewrites exactly the marker's Open event, appends Close; index in range (no panic)",
        contract=f"""requires old(self).wf(), marker_ok(old(self).events@, m.index),
         ensures final(self).wf(), {FRAME}, {KEEP},
             final(self).events@ == old(self).events@.update(m.index as int, Event::Open {{ kind, forward_parent: None }}).push(Event::Close),
             r.index == m.index, marker_ok(final(self).events@, r.index),
-            events_extend(old(self).events@, final(self).events@),""",
+            events_extend(old(self).events@, final(self).events@), {MU_SAME}""",
        ghost=[("MarkerClosed { index", "line-before", "proof { lemma_close_wf(old(self).events@, m.index as int, kind); }")]),
     Fn(file=P, name="completed", container="MarkerOpened", ret="r",
        obligation="completed: the assert!(event is Open) and the index never fail given a live marker; same effect as close",
-       contract="""requires old(p).wf(), marker_ok(old(p).events@, self.index),
-        ensures final(p).wf(), final(p).same_input(old(p)),
-            final(p).input == old(p).input && final(p).fuel == old(p).fuel && final(p).stuck_reported == old(p).stuck_reported && final(p).diagnostics == old(p).diagnostics,
-            final(p).events@ == old(p).events@.update(self.index as int, Event::Open { kind, forward_parent: None }).push(Event::Close),
+       contract=f"""requires old(p).wf(), marker_ok(old(p).events@, self.index),
+        ensures final(p).wf(), final(p).same_input(old(p)), {KEEP_P},
+            final(p).events@ == old(p).events@.update(self.index as int, Event::Open {{ kind, forward_parent: None }}).push(Event::Close),
             r.index == self.index, marker_ok(final(p).events@, r.index),
-            events_extend(old(p).events@, final(p).events@),""",
+            events_extend(old(p).events@, final(p).events@), {MU_SAME_P}""",
        ghost=[("MarkerClosed { index", "line-before", "proof { lemma_close_wf(old(p).events@, self.index as int, kind); }")]),
     Fn(file=P, name="precede", container="MarkerClosed", ret="r",
        obligation="precede: unreachable!() is unreachable given a live marker; sets a forward link to the fresh Open (>= 1, in range)",
-       contract="""requires old(p).wf(), marker_ok(old(p).events@, self.index),
-        ensures final(p).wf(), final(p).same_input(old(p)),
-            final(p).input == old(p).input && final(p).fuel == old(p).fuel && final(p).stuck_reported == old(p).stuck_reported && final(p).diagnostics == old(p).diagnostics,
+       contract=f"""requires old(p).wf(), marker_ok(old(p).events@, self.index),
+        ensures final(p).wf(), final(p).same_input(old(p)), {KEEP_P},
             final(p).events@.len() == old(p).events@.len() + 1,
             r.index == old(p).events.len(), marker_ok(final(p).events@, r.index), marker_ok(final(p).events@, self.index),
-            final(p).events@[r.index as int] == (Event::Open { kind: MySyntaxKind::TombStone, forward_parent: None }),
-            final(p).events@[self.index as int] == (Event::Open { kind: old(p).events@[self.index as int]->kind, forward_parent: Some((old(p).events.len() - self.index) as usize) }),
+            final(p).events@[r.index as int] == (Event::Open {{ kind: MySyntaxKind::TombStone, forward_parent: None }}),
+            final(p).events@[self.index as int] == (Event::Open {{ kind: old(p).events@[self.index as int]->kind, forward_parent: Some((old(p).events.len() - self.index) as usize) }}),
             forall|i: int| 0 <= i < old(p).events@.len() && i != self.index ==> final(p).events@[i] == old(p).events@[i],
-            events_extend(old(p).events@, final(p).events@),""",
+            events_extend(old(p).events@, final(p).events@), {MU_SAME_P}""",
        ghost=[("        m\n", "before", "proof { lemma_precede_wf(old(p).events@, p.events@, self.index as int); }")]),
     Fn(file=P, name="advance", container="Parser", as_method_of=PI,
-       obligation="advance resets fuel, consumes exactly one non-trivia token if any, records one Advance; accounting invariant kept",
+       obligation="advance resets fuel, consumes exactly one non-trivia token if any, records one Advance; accounting invariant kept; measure decreases unless at end of input",
        contract=f"""requires old(self).wf(),
         ensures final(self).wf(), {FRAME}, final(self).fuel == 256, !final(self).stuck_reported, final(self).diagnostics == old(self).diagnostics,
             {EV_PUSH.format(e="Event::Advance")}, events_extend(old(self).events@, final(self).events@),
-            ({{ let c = skip_trivia(old(self).input.tokens@, old(self).input.cursor as int);
-               final(self).input.cursor == if c < old(self).input.tokens.len() {{ c + 1 }} else {{ c }} }}),""",
-       ghost=[("@entry", "", "proof { lemma_skip_trivia_bounds(self.input.tokens@, self.input.cursor as int); let c = skip_trivia(self.input.tokens@, self.input.cursor as int); if c < self.input.tokens.len() { lemma_nontrivia_step(self.input.tokens@, c); } }"),
-              ("self.events.push(Event::Advance)", "line-after", "proof { lemma_count_adv_push(old(self).events@, Event::Advance); assert forall|i: int| 0 <= i < self.events@.len() implies #[trigger] fp_ok(self.events@, i) by { if i < old(self).events@.len() { assert(fp_ok(old(self).events@, i)); } } }")]),
+            ({{ let c = skip_trivia({OLDC});
+               final(self).input.cursor == if c < old(self).input.tokens.len() {{ c + 1 }} else {{ c }} }}),
+            mu(*final(self)) <= mu(*old(self)), !at_eof(*old(self)) ==> mu(*final(self)) < mu(*old(self)),
+            at_eof(*old(self)) ==> at_eof(*final(self)),""",
+       ghost=[G_ENTRY,
+              ("@entry", "", f"proof {{ {G_SKIP} let c = skip_trivia(self.input.tokens@, self.input.cursor as int); if c < self.input.tokens.len() {{ lemma_nontrivia_step(self.input.tokens@, c); }} }}"),
+              ("self.events.push(Event::Advance)", "line-after", WF_PUSH + "\nproof { lemma_mu_advance(p0, *self); }")]),
     Fn(file=P, name="eat", container="Parser", as_method_of=PI, ret="r",
        contract=f"""requires old(self).wf(),
         ensures final(self).wf(), {FRAME}, events_extend(old(self).events@, final(self).events@),
             !r ==> final(self).events == old(self).events,
-            r ==> final(self).events@ == old(self).events@.push(Event::Advance) && final(self).fuel == 256,"""),
+            r ==> final(self).events@ == old(self).events@.push(Event::Advance) && final(self).fuel == 256,
+            mu(*final(self)) <= mu(*old(self)),
+            (r && kind != TokenKind::Eof) ==> mu(*final(self)) < mu(*old(self)),
+            (old(self).fuel > 0 && !at_eof(*old(self))) ==> mu(*final(self)) < mu(*old(self)),
+            at_eof(*old(self)) ==> at_eof(*final(self)),"""),
     Fn(file=P, name="error", container="Parser", as_method_of=PI,
        rewrites=[("msg.to_string()", "rt_string(msg)")],
        contract=f"""requires old(self).wf(),
         ensures final(self).wf(), {FRAME}, {KEEP}, final(self).events@.len() == old(self).events@.len() + 1,
             final(self).events@.last() is Error, events_extend(old(self).events@, final(self).events@),
-            forall|i: int| 0 <= i < old(self).events@.len() ==> final(self).events@[i] == old(self).events@[i],""",
+            forall|i: int| 0 <= i < old(self).events@.len() ==> final(self).events@[i] == old(self).events@[i], {MU_SAME}""",
        ghost=[("self.events.push(Event::Error(", "line-after", "proof { lemma_push_nonadv_wf(old(self).events@, self.events@.last()); }")]),
     Fn(file=P, name="advance_with_error", container="Parser", as_method_of=PI,
        rewrites=[("error.to_string()", "rt_string(error)")],
-       obligation="advance_with_error wraps exactly one Advance in an ErrorTree node: Open, Error, Advance, Close",
+       obligation="advance_with_error wraps exactly one Advance in an ErrorTree node: Open, Error, Advance, Close; makes progress unless at end of input",
        contract=f"""requires old(self).wf(),
         ensures final(self).wf(), {FRAME}, final(self).fuel == 256, events_extend(old(self).events@, final(self).events@),
             final(self).events@.len() == old(self).events@.len() + 4,
@@ -145,21 +174,34 @@ PCORE_FNS = [
             final(self).events@[old(self).events@.len() as int] == (Event::Open {{ kind: MySyntaxKind::ErrorTree, forward_parent: None }}),
             final(self).events@[old(self).events@.len() as int + 1] is Error,
             final(self).events@[old(self).events@.len() as int + 2] is Advance,
-            final(self).events@[old(self).events@.len() as int + 3] is Close,""",
+            final(self).events@[old(self).events@.len() as int + 3] is Close,
+            mu(*final(self)) <= mu(*old(self)), !at_eof(*old(self)) ==> mu(*final(self)) < mu(*old(self)),
+            at_eof(*old(self)) ==> at_eof(*final(self)),""",
        ghost=[("let m = self.open()", "line-after", "let ghost e1 = self.events@;"),
               ("self.events.push(Event::Error(", "line-after", "proof { lemma_push_nonadv_wf(e1, self.events@.last()); assert(self.events@ =~= e1.push(self.events@.last())); }")]),
     Fn(file=P, name="should_consume_on_expect_failure", ret="r"),
     Fn(file=P, name="expect", container="Parser", as_method_of=PI, rules=["T", CELL, "fmtmsg"],
        rewrites=[("self.advance_with_error(&err_msg);", "self.advance_with_error(err_msg.as_str());")],
-       obligation="expect consumes at most one token and always records either an Advance or an Error event",
+       obligation="expect consumes at most one token and always records either an Advance or an Error event; never increases the measure",
        contract=f"""requires old(self).wf(),
         ensures final(self).wf(), {FRAME}, events_extend(old(self).events@, final(self).events@),
             final(self).events@.len() > old(self).events@.len(),
-            forall|i: int| 0 <= i < old(self).events@.len() ==> final(self).events@[i] == old(self).events@[i],""",
+            forall|i: int| 0 <= i < old(self).events@.len() ==> final(self).events@[i] == old(self).events@[i],
+            mu(*final(self)) <= mu(*old(self)),
+            (old(self).fuel > 0 && !at_eof(*old(self))) ==> mu(*final(self)) < mu(*old(self)),
+            at_eof(*old(self)) ==> at_eof(*final(self)),""",
        ghost=[("self.events.push(Event::Error(", "line-after", "proof { lemma_push_nonadv_wf(old(self).events@, self.events@.last()); }")]),
 ]
 
 LEMMAS = Raw(text="""
+pub proof fn lemma_nth_eof(ts: Seq<Token>, c: int, n: int)
+    requires 0 <= c <= ts.len(), skip_trivia(ts, c) == ts.len(),
+    ensures nth_kind(ts, c, n) == TokenKind::Eof,
+    decreases ts.len() - c,
+{
+    if c < ts.len() { lemma_nth_eof(ts, c + 1, n); }
+}
+
 pub proof fn lemma_push_nonadv_wf(evs: Seq<Event>, e: Event)
     requires events_wf(evs), !(e is Advance), !(e is Open),
     ensures events_wf(evs.push(e)), count_adv(evs.push(e), evs.len() as int + 1) == count_adv(evs, evs.len() as int),
@@ -200,7 +242,8 @@ pub proof fn lemma_precede_wf(evs: Seq<Event>, n: Seq<Event>, idx: int)
 }
 """)
 
-TYPES = [Raw(path="contracts/parser.shim.rs")] + TOKENKIND + IS_TRIVIA + TOKEN + SYNTAXKIND + EVENT + INPUT[:1] + PARSER_TYPES + INPUT[1:] + [Raw(path="contracts/parser.spec.rs"), LEMMAS]
+TYPES = ([Raw(path="contracts/parser.shim.rs")] + TOKENKIND + IS_TRIVIA + TOKEN + SYNTAXKIND + EVENT + INPUT[:1] + PARSER_TYPES + INPUT[1:]
+         + [Raw(path="contracts/parser.spec.rs"), LEMMAS])
 
 UNIT = Unit(
     name="U-PCORE",
@@ -208,6 +251,7 @@ UNIT = Unit(
     rules=RULES,
     describe="parser core (Parser::{peek,nth,eof,at,at_any,eat,expect,advance,error,advance_with_error,open,close}, markers): "
              "representation invariant wf (cursor in range, forward links valid, Advance count >= non-trivia consumed, diagnostic ranges are token ranges) "
-             "is preserved; no index/assert!/unreachable! failure; exact event-stream effect of every operation; fuel semantics",
+             "is preserved; no index/assert!/unreachable! failure; exact event-stream effect of every operation; fuel semantics; "
+             "termination measure mu never increases and strictly decreases on every real advance and every fuelled look-ahead",
     items=TYPES + PCORE_FNS,
 )
